@@ -58,10 +58,13 @@ class RootDecomposition(Function):
         if ctx.batch_shape is None:
             q_mat = q_mat.unsqueeze(-3)
             t_mat = t_mat.unsqueeze(-3)
-        if t_mat.ndimension() == 3:  # If we only used one probe vector
+        # lanczos_tridiag drops the probe dimension when a single probe vector was used; whether it did is
+        # decided by the number of dimensions (not by `== 3`, which is only right for exactly one batch dimension)
+        batch_ndim = 1 if ctx.batch_shape is None else len(ctx.batch_shape)
+        single_probe = t_mat.ndimension() == batch_ndim + 2
+        if single_probe:  # If we only used one probe vector
             q_mat = q_mat.unsqueeze(0)
             t_mat = t_mat.unsqueeze(0)
-        n_probes = t_mat.size(0)
 
         mins = to_linear_operator(t_mat)._diagonal().min(dim=-1, keepdim=True)[0].unsqueeze(-1)
         jitter_mat = (settings.tridiagonal_jitter.value() * mins) * torch.eye(
@@ -90,7 +93,7 @@ class RootDecomposition(Function):
             q_mat = q_mat.squeeze(1)
             root_evals = root_evals.squeeze(1)
             inverse = inverse.squeeze(1) if inverse.numel() else inverse
-        if n_probes == 1:
+        if single_probe:
             root = root.squeeze(0) if root.numel() else root
             q_mat = q_mat.squeeze(0)
             root_evals = root_evals.squeeze(0)
